@@ -174,3 +174,17 @@ m("C03", "operators.py", "            return Deferred[self.return_type](lambda: 
 # C10.parse
 m("C10", "context.py", '            elif self.code[self.pos] == ";":', '            elif self.code[self.pos] == "#":', "C10.parse")
 m("C10", "context.py", '            if self.code[self.pos].strip() == "":', '            if self.code[self.pos] == " " or self.code[self.pos] == "\\n":', "C10.parse")
+# ---- round 4 rules
+m("C16", "operators.py", "        invoke = self.fn if self.token else type(self).fn\n        if not self.pure:\n            invoke = wrap_impure(self, invoke)\n\n        if not isinstance(lhs, BaseDeferred)",
+  "        invoke = self.fn if self.token else type(self).fn\n        invoke = wrap_impure(self, invoke)\n\n        if not isinstance(lhs, BaseDeferred)", "G4.re")
+m("C02", "operators.py", "        invoke = self.fn if self.token else type(self).fn\n        if not self.pure:\n            invoke = wrap_impure(self, invoke)\n\n        if not isinstance(lhs, BaseDeferred)",
+  "        invoke = self.fn if self.token else type(self).fn\n        invoke = wrap_impure(self, invoke)\n\n        if not isinstance(lhs, BaseDeferred)", "G4.re")
+m("C16", "deferred.py", "                return Concatenator[self.typ](self.lst + rhs.lst)", "                self.lst.extend(rhs.lst)\n                return self", "G4.def")
+m("C17", "reports.py", "    handler(priority, identifier, *reports)\n\n    if priority in (error, critical):", "    handler(priority, identifier, *reversed(reports))\n\n    if priority in (error, critical):", "R.deliver")
+m("C13", "devices.py", "    return match is not None and match[1].lower() in DEVICES", "    return match is not None", "C13.R7d")
+m("C08", "metacommands.py", "    if compiler.include_depth >= MAX_INCLUDE_DEPTH:", "    if compiler.include_depth >= MAX_INCLUDE_DEPTH and compiler.include_depth < 0:", "G14")
+m("C08", "metacommands.py", "    compiler.include_depth += 1\n    try:", "    compiler.include_depth += 0\n    try:", "G14")
+m("C08", "metacommands.py", "    if compiler.include_depth >= MAX_INCLUDE_DEPTH:", "    if compiler.include_depth > MAX_INCLUDE_DEPTH - 1:", None)
+m("C08", "metacommands.py", "    if compiler.include_depth >= MAX_INCLUDE_DEPTH:", "    if not compiler.include_depth < MAX_INCLUDE_DEPTH:", None)
+m("C10", "insns.py", "    elif isinstance(operand, operators.register):", "    elif isinstance(operand, operators.register) and state is None:", "C01.T")
+m("C05", "deferred.py", "                new_coeffs += [(key1, value1 * value) for key1, value1 in key.coeffs.items()]", "                new_coeffs = dict(new_coeffs); new_coeffs.update({key1: value1 * value for key1, value1 in key.coeffs.items()}); new_coeffs = list(new_coeffs.items())", "C03.R7")
